@@ -148,6 +148,13 @@ func dynCalleeName(v ssa.Value) string {
 		return v.Name()
 	case *ssa.FreeVar:
 		return v.Name()
+	case *ssa.UnOp:
+		// a variable captured by reference is called through a load: (*fn)(w)
+		if v.Op == token.MUL {
+			if fv, ok := v.X.(*ssa.FreeVar); ok {
+				return fv.Name()
+			}
+		}
 	}
 	return ""
 }
